@@ -158,7 +158,14 @@ class Vertex(base.BaseObject):
         if not self.NEIGHBOR_CACHING:
             return self._QA_NB_INVALID
 
-        if args in self.__qa_nb_cache:
+        try:
+            hit = args in self.__qa_nb_cache
+        except TypeError:
+            # unhashable argument (e.g. a filterfunc object without __hash__):
+            # such a call cannot be cached, so it is always recomputed
+            return self._QA_NB_INVALID
+
+        if hit:
             self._CACHE_STATS[self.uid][0] += 1
 
             return self.__qa_nb_cache[args]
@@ -196,8 +203,12 @@ class Vertex(base.BaseObject):
         """
         if not self.NEIGHBOR_CACHING:
             return
+        try:
+            self.__qa_nb_cache[args] = answer
+        except TypeError:
+            # unhashable argument; see _qa_neighbors_get
+            return
         self._CACHE_STATS[self.uid][3] += 1
-        self.__qa_nb_cache[args] = answer
 
     def add_to_link(self, link: Link):
         """
